@@ -158,6 +158,14 @@ class VM:
             self.flags.update(flags)
         self.defs = dict(defs or {})            # handle int -> body bytes
         self.tainted_defs = set()
+        # definitions and EVAL: the documents say an EVAL body works on a copy of the definitions, but not
+        # whether a function defined outside and called from inside sees / changes the copy or the original.
+        # level = EVAL nesting of the running code, code_lex = level at which the running code was defined,
+        # frames[k] = (defs, def_lex) of level k as saved when level k+1 was entered.
+        self.def_lex = {h: 0 for h in self.defs}
+        self.level = 0
+        self.code_lex = 0
+        self.frames = []
         self.flag_changed_in = {}               # flag -> id of the body activation that ran SET/UNSET_FLAG on it
         self.body_id = 0
         self.body_counter = 0
@@ -269,7 +277,10 @@ class VM:
             if name == 'DEF':
                 handle = rd1()
                 bodyb = rdblock()
+                if self.code_lex != self.level:
+                    raise Unspec('definition made by an outer function running inside an EVAL body')
                 self.defs[handle] = bodyb
+                self.def_lex[handle] = self.level
                 if self.scope > 0:
                     self.tainted_defs.add(handle)
                 else:
@@ -277,22 +288,29 @@ class VM:
             elif name == 'CALL':
                 if self.depth >= env.limit:
                     raise RErr('limit:calls')
+                if env.n_calls >= env.limit:
+                    raise Unspec('cumulative call budget accounting')
                 handle = rd1()
                 if handle in self.tainted_defs:
                     raise Unspec('call of a function (re)defined inside a conditional/try/loop body')
+                if self.code_lex != self.level:
+                    lexd, lexl = self.frames[self.code_lex]
+                    if lexd.get(handle) != self.defs.get(handle) or lexl.get(handle) != self.def_lex.get(handle):
+                        raise Unspec('function lookup by an outer function running inside an EVAL body')
                 if handle not in self.defs:
                     raise RErr('undefined', 'call of undefined function')
                 env.n_calls += 1
-                if env.n_calls > env.limit:
-                    raise Unspec('cumulative call budget accounting')
                 self.depth += 1
                 saved_scope = self.scope
+                saved_lex = self.code_lex
                 self.scope = 0 if saved_scope == 0 else saved_scope
+                self.code_lex = self.def_lex[handle]
                 try:
                     self.body(self.defs[handle])   # RETURN returns only to the caller
                 finally:
                     self.depth -= 1
                     self.scope = saved_scope
+                    self.code_lex = saved_lex
             elif name == 'IF':
                 blk = rdblock()
                 if to_bool(self.pop()):
@@ -399,6 +417,8 @@ class VM:
             raise RErr('disallowed', 'OP_EVAL disallowed')
         if self.depth >= self.env.limit:
             raise RErr('limit:calls')
+        if self.env.n_calls >= self.env.limit:
+            raise Unspec('cumulative call budget accounting')
         return self.check_script(self.popb())
 
     def check_script(self, s):
@@ -412,18 +432,25 @@ class VM:
             raise RErr('disallowed', 'OP_EVAL disallowed')
         if self.depth >= env.limit:
             raise RErr('limit:calls')
-        env.n_calls += 1
-        if env.n_calls > env.limit:
+        if env.n_calls >= env.limit:
             raise Unspec('cumulative call budget accounting')
-        saved = (dict(self.defs), set(self.tainted_defs), dict(self.flags), dict(self.flag_changed_in), self.scope)
+        if self.code_lex != self.level and self.frames[self.code_lex] != (self.defs, self.def_lex):
+            raise Unspec('EVAL by an outer function running inside an EVAL body with different definitions')
+        env.n_calls += 1
+        saved = (dict(self.defs), set(self.tainted_defs), dict(self.flags), dict(self.flag_changed_in), self.scope,
+                 dict(self.def_lex), self.code_lex)
+        self.frames.append((saved[0], saved[5]))
         self.depth += 1
+        self.level += 1
+        self.code_lex = self.level
         self.scope = 0
         try:
             sig = self.body(script)
         finally:
             self.depth -= 1
-            self.defs, self.tainted_defs, self.flags, self.flag_changed_in, self.scope = \
-                saved[0], saved[1], saved[2], saved[3], saved[4]
+            self.level -= 1
+            self.frames.pop()
+            self.defs, self.tainted_defs, self.flags, self.flag_changed_in, self.scope, self.def_lex, self.code_lex = saved
         if sig == RET and self.flags.get('eval_return'):
             return RET
         return END
